@@ -28,11 +28,11 @@ var OCSPBehaviours = []string{
 	"revoked-inv-before", "revoked-inv-equal", "revoked-inv-after", "revoked-inv-malformed", "revoked-after-st", "revoked-after-st-inv-before",
 	"unknown-status",
 	// forged
-	"forged-unrelated-nocert", "forged-unrelated-selfsigned", "forged-samename-ca", "forged-samename-delegate",
+	"forged-unrelated-nocert", "forged-unrelated-selfsigned", "forged-samename-ca", "forged-samename-ca-dressed", "forged-samename-delegate",
 	"forged-self", "forged-sibling", "forged-sibling-noeku", "forged-sibling-anyeku", "forged-delegate-badsig", "forged-delegate-certbroken",
 	"sig-zero", "sig-trunc", "forged-revoked-inv-after",
 	// misdirected
-	"other-serial",
+	"other-serial", "sibling-good-replay",
 	// stale
 	"expired", "no-nextupdate", "expired-revoked",
 	// malformed
@@ -252,6 +252,15 @@ func (k *Kit) build(beh string) netsim.Reply {
 		r.SignKey, r.Responder, r.Embed = aux.sameNameCAKey, aux.sameNameCA, []*x509.Certificate{aux.sameNameCA}
 		r.Singles = []pki.OCSPSingle{k.single(pki.OCSPGood)}
 		return body(r)
+	case "forged-samename-ca-dressed":
+		r := base()
+		r.SignKey, r.Responder, r.Embed = aux.sameNameCAKey, aux.sameNameCAOCSP, []*x509.Certificate{aux.sameNameCAOCSP}
+		r.Singles = []pki.OCSPSingle{k.single(pki.OCSPGood)}
+		return body(r)
+	case "sibling-good-replay":
+		// an authentic, current Good answer - for a SIBLING certificate of the same
+		// issuer - that this process has already seen accepted for that sibling
+		return netsim.Reply{Body: k.F.siblingGood(k.Pos)}
 	case "forged-samename-delegate":
 		r := base()
 		r.SignKey, r.Responder, r.Embed = aux.sameNameDelegateKey, aux.sameNameDelegate, []*x509.Certificate{aux.sameNameDelegate}
